@@ -89,6 +89,9 @@ type followerReplication struct {
 	// stepDown is used to indicate to the leader that we
 	// should step down based on information from a follower.
 	stepDown chan struct{}
+	// newerTerm is the term of the response that made us ask for the step
+	// down; the main loop adopts it. Accessed atomically.
+	newerTerm uint64
 
 	// allowPipeline is used to determine when to pipeline the AppendEntries RPCs.
 	// It is private to this replication goroutine.
@@ -237,7 +240,7 @@ START:
 
 	// Check for a newer term, stop running
 	if resp.Term > req.Term {
-		r.handleStaleTerm(s)
+		r.handleStaleTerm(s, resp.Term)
 		return true
 	}
 
@@ -357,7 +360,7 @@ func (r *Raft) sendLatestSnapshot(s *followerReplication) (bool, error) {
 
 	// Check for a newer term, stop running
 	if resp.Term > req.Term {
-		r.handleStaleTerm(s)
+		r.handleStaleTerm(s, resp.Term)
 		return true, nil
 	}
 
@@ -553,7 +556,7 @@ func (r *Raft) pipelineDecode(s *followerReplication, p AppendPipeline, stopCh, 
 
 			// Check for a newer term, stop running
 			if resp.Term > req.Term {
-				r.handleStaleTerm(s)
+				r.handleStaleTerm(s, resp.Term)
 				return
 			}
 
@@ -650,9 +653,10 @@ func appendStats(peer string, start time.Time, logs float32, skipLegacy bool) {
 }
 
 // handleStaleTerm is used when a follower indicates that we have a stale term.
-func (r *Raft) handleStaleTerm(s *followerReplication) {
+func (r *Raft) handleStaleTerm(s *followerReplication, term uint64) {
 	r.logger.Error("peer has newer term, stopping replication", "peer", s.peer)
 	s.notifyAll(false) // No longer leader
+	atomic.StoreUint64(&s.newerTerm, term)
 	asyncNotifyCh(s.stepDown)
 }
 
